@@ -39,11 +39,48 @@ theorem applyCacheControl_eq (now : Int) (l : List Str) (e0 : Int) :
 theorem maxAge_nil : Spec.maxAge [] = none := by
   simp [Spec.maxAge, splitComma, Spec.maxAgeOf, trimSpaces, dropSpaces, splitEq]
 
-/-- the lifetime the code computes is the specification's: max-age in preference to Expires -/
+/-- strings.Split distributes over a comma-joined text -/
+theorem splitComma_append (a b cur : Str) :
+    splitComma (a ++ ',' :: b) cur = splitComma a cur ++ splitComma b [] := by
+  induction a generalizing cur with
+  | nil => simp [splitComma]
+  | cons c rest ih =>
+    simp only [List.cons_append, splitComma]
+    by_cases hc : (c == ',') = true
+    · simp only [hc, if_true, List.cons_append]
+      rw [ih]
+    · simp only [hc, Bool.false_eq_true, if_false]
+      exact ih _
+
+theorem splitComma_join (lines : List Str) (h : lines ≠ []) :
+    splitComma (joinComma lines) [] = lines.flatMap (fun l => splitComma l []) := by
+  induction lines with
+  | nil => exact absurd rfl h
+  | cons l rest ih =>
+    cases rest with
+    | nil => simp [joinComma]
+    | cons l2 rest2 =>
+      have := ih (by simp)
+      simp only [joinComma, List.flatMap_cons] at this ⊢
+      rw [splitComma_append, this]
+
+/-- the directives of all Cache-Control lines are the directives of the comma-joined header -/
+theorem maxAgeLines_eq (lines : List Str) (h : lines ≠ []) : Spec.maxAgeLines lines = Spec.maxAge (joinComma lines) := by
+  unfold Spec.maxAgeLines Spec.maxAge
+  rw [splitComma_join lines h]
+
+/-- the lifetime the code computes is the specification's: max-age — on whichever header line — in preference to Expires -/
 theorem expiryOf_eq (r : Reply) (now : Int) (et : Option Int) : expiryOf r now et = Spec.lifetime r now et := by
   unfold expiryOf Spec.lifetime
-  by_cases hc : r.cacheControl.isEmpty = true
-  · have : r.cacheControl = [] := by simpa using hc
+  have hlines : Spec.maxAgeLines r.cacheControl = Spec.maxAge (joinComma r.cacheControl) := by
+    by_cases hl : r.cacheControl = []
+    · rw [hl]
+      simp [Spec.maxAgeLines, joinComma, maxAge_nil]
+    · exact maxAgeLines_eq _ hl
+  rw [hlines]
+  simp only
+  by_cases hc : (joinComma r.cacheControl).isEmpty = true
+  · have : joinComma r.cacheControl = [] := by simpa using hc
     rw [this, maxAge_nil]
     simp only [List.isEmpty_nil, Bool.not_true, Bool.false_eq_true, ↓reduceIte]
     by_cases he : r.expires.isEmpty = true
@@ -51,11 +88,11 @@ theorem expiryOf_eq (r : Reply) (now : Int) (et : Option Int) : expiryOf r now e
     · have he' : r.expires.isEmpty = false := by simpa using he
       simp only [he', Bool.not_false, ↓reduceIte, Bool.false_eq_true]
       cases et <;> rfl
-  · have hc' : r.cacheControl.isEmpty = false := by simpa using hc
+  · have hc' : (joinComma r.cacheControl).isEmpty = false := by simpa using hc
     simp only [hc', Bool.not_false, ↓reduceIte]
     rw [applyCacheControl_eq]
     unfold Spec.maxAge
-    cases (List.filterMap Spec.maxAgeOf (splitComma r.cacheControl [])).getLast? with
+    cases (List.filterMap Spec.maxAgeOf (splitComma (joinComma r.cacheControl) [])).getLast? with
     | some a => rfl
     | none =>
       simp only []
